@@ -20,7 +20,7 @@ from .common import (DEFAULT_NS, Outcome, call, load_repo, open_store, read_all_
 from .gen import make_content, op_shape
 from .seqengine import World
 
-FAULT_KINDS = {"create", "wopen", "rename", "remove", "mkdir", "lock", "ropen", "write"}
+FAULT_KINDS = {"create", "wopen", "rename", "remove", "mkdir", "lock", "ropen", "write", "getsize"}
 CRASH_KINDS = {"create", "wopen", "rename", "remove", "mkdir", "chmod", "truncate", "link",
                "flush-before-truncate", "close-write", "rmdir", "write"}
 # "a failure that persists for that destination": every operation of the same class on the same destination
@@ -30,7 +30,7 @@ CRASH_KINDS = {"create", "wopen", "rename", "remove", "mkdir", "chmod", "truncat
 # read a file that could not be written).
 PERSIST_CLASS = {"create": "write-to-destination", "wopen": "write-to-destination", "rename": "write-to-destination",
                  "mkdir": "write-to-destination", "ropen": "open-for-reading", "remove": "remove", "lock": "lock",
-                 "write": "write-data"}
+                 "write": "write-data", "getsize": "stat-size"}
 NOT_FOUND = {"PidRefsDoesNotExist", "OrphanPidRefsFileFound", "PidNotFoundInCidRefsFile",
              "RefsFileExistsButCidObjMissing"}
 
